@@ -66,6 +66,7 @@ Print Assumptions component_roundtrip.
 (* ---- kern format 0 (ModelKern.v: both subtable headers, the sorted pair records, the saturating pair count): the compiled subtable
    decodes to the same pairs in glyph-ID order, for any set of at most 65535 pairs that fit their fields *)
 From FV Require C02.ModelKern C02.ProofsKern.
+From FV Require C02.ModelCmap6 C02.ProofsCmap6.
 Theorem kern0_roundtrip : forall apple coverage ti pairs bytes,
   NoDup (map ProofsKern.key pairs) -> Z.of_nat (length pairs) <= 65535 ->
   ModelKern.kern0_compile apple coverage ti pairs = Ok bytes ->
@@ -73,3 +74,15 @@ Theorem kern0_roundtrip : forall apple coverage ti pairs bytes,
   Permutation.Permutation (ModelKern.sort3 pairs) pairs.
 Proof. exact ProofsKern.kern0_roundtrip. Qed.
 Print Assumptions kern0_roundtrip.
+
+(* cmap format 6 (trimmed table mapping): a mapping given in increasing code order whose glyph IDs are not 0 (the ID compile writes
+   into the holes of the code range and _make_map drops again) comes back unchanged, with its language, whenever compile succeeds
+   (it refuses ranges of more than 32762 codes, codes and glyph IDs beyond 16 bits) *)
+Theorem cmap6_roundtrip : forall language m,
+  ProofsCmap6.sorted_from 0 m -> ProofsCmap6.gids_ok m ->
+  match ModelCmap6.cmap6_compile language m with
+  | Ok bytes => ModelCmap6.cmap6_decompile bytes = Ok (language, m)
+  | Err _ => True
+  end.
+Proof. exact ProofsCmap6.cmap6_roundtrip. Qed.
+Print Assumptions cmap6_roundtrip.
